@@ -191,6 +191,18 @@ def s_store(cx):
                 if rc:
                     recompute(img)
                 L.append("load buf=%s ok=1" % hx(img))
+    # bytes 27-28 together (the last sixteen bits of the secret field: fourteen of the secret, two that must be
+    # clear): all 65536 values, so that a test on the two unused bits cannot depend on the bits below them
+    for v in range(65536):
+        img = bytearray(base[2])
+        img[27] = v & 255
+        img[28] = v >> 8
+        if not cx.quick:
+            L.append("load buf=%s ok=1" % hx(img))
+        recompute(img)
+        L.append("load buf=%s ok=1" % hx(img))
+        if v % 1000 == 999:
+            header()
     # header bytes: every wrong value
     for pos in range(8):
         for v in range(256):
@@ -217,6 +229,30 @@ def s_store(cx):
         L += ["reset", "enable mask=7", load_op(sec, b, f), "store h=0", "birthday h=0",
               "feature h=0 mask=7", "isenc h=0", "keygen h=0 coin=%d size=32" % r.randrange(2048),
               "encode h=0 lang=0 coin=0", "free h=0"]
+    return L
+
+
+def special_rands():
+    """outputs of the random source at the edges of its range: all zero, all ones, only the two discarded bits
+    set, one bit set at either end of each byte"""
+    out = [[0] * 19, [255] * 19, [0] * 18 + [0xC0], [0] * 18 + [0x3F], [255] * 18 + [0x3F], [0] * 18 + [0x40],
+           [0] * 18 + [0x80]]
+    for i in range(19):
+        for v in (1, 0x80):
+            x = [0] * 19
+            x[i] = v
+            out.append(x)
+    return out
+
+
+def special_creates(cx):
+    """polyseed_create on each of them; everything a caller can observe of the new seed is then observed"""
+    L = []
+    for k, sec in enumerate(special_rands()):
+        f = (0, 1, 7)[k % 3]
+        L += ["reset", "enable mask=7", "create feat=%d rand=%s clock=%d ok=1" % (f, hx(sec), P.EPOCH + 3 * P.STEP),
+              "store h=0", "keygen h=0 coin=0 size=32", "encode h=0 lang=0 coin=0", "birthday h=0",
+              "feature h=0 mask=7", "isenc h=0", "free h=0"]
     return L
 
 
@@ -798,7 +834,7 @@ def s_seq(cx, fault=False, length=None, count=None):
                     pass
             elif k < 22:
                 f = r.randrange(8) & mask
-                sec = [r.randrange(256) for _ in range(19)]
+                sec = [r.randrange(256) for _ in range(19)] if r.randrange(8) else r.choice(special_rands())
                 L.append("create feat=%d rand=%s clock=%d ok=%d" % (
                     f if r.randrange(6) else r.randrange(32), hx(sec),
                     r.choice([0, P.EPOCH + r.randrange(1100) * P.STEP + r.randrange(P.STEP), r.randrange(2 ** 64)]), ok))
@@ -879,6 +915,7 @@ def s_exits(cx):
     r = cx.rng
     # whatever a constructor handed out is used at once: every byte of the struct is observed
     USE0 = ["keygen h=0 coin=0 size=32", "store h=0", "birthday h=0", "feature h=0 mask=7", "isenc h=0"]
+    L += special_creates(cx)
     for rep in range(cx.n(3, 30)):
         for li in ([0, 3, 8] if cx.quick else range(cx.nl)):
             sec, b, f = cx.seed(enc=0, feat=0)
